@@ -7,6 +7,7 @@
 import BespokeVerif.Model.Expr
 import BespokeVerif.Model.Cond
 import BespokeVerif.Model.Str
+import BespokeVerif.Model.Macro
 namespace BV
 
 /-! ## labels and scopes -/
@@ -152,6 +153,7 @@ inductive Stmt where
   | memzone (z : String)
   | align (p : Option E)
   | instr (opcode : Nat) (args : List (E × Nat))  -- one opcode byte + arguments of `w` bytes each
+  | isa (mn : String) (fs : List Form)            -- a statement of the configured ISA: instruction or macro invocation
   | mute | unmute
   | createZone (name : String) (s e : Int)
   | comment                                      -- comment-only line: a line object of size 0
@@ -180,7 +182,53 @@ structure Cfg where
   preConsts : List (String × Int)
   preData : List (String × Int × Int × Int)      -- name, address, value, size
   preSyms : SymTab := []                          -- ISA `predefined.symbols` and `-D` symbols
+  tbl : InstrTable := []                          -- the configured instructions (mnemonic → variants)
+  macros : List (String × List MacroVariant) := []
 deriving Repr, Inhabited
+
+/-- the GLOBAL zone as operand matching sees it (`MemoryZoneManager.global_zone`, fixed at load time) -/
+def cfgGz (cfg : Cfg) : Int × Int :=
+  match (cfg.preZones.filter (·.1 == "GLOBAL")).getLast? with
+  | some (_, s, e) => (s, e)
+  | none => (0, (2 : Int) ^ cfg.bits - 1)
+
+/-- reserved size of an ISA statement: variant selection only — no expression is evaluated, no
+    address is known (`InstructionLine.__init__` → `parse_instruction`; `byte_size`) -/
+def isaSize (cfg : Cfg) (mn : String) (fs : List Form) : Except Err Nat :=
+  match cfg.tbl.find? (·.1 == mn) with
+  | some (_, variants) =>
+    match selectVariant cfg.regs (cfgGz cfg) variants fs 0 with
+    | .ok (_, v, m) => .ok (stmtSize v m)
+    | _ => .error .noVariant
+  | none =>
+    match cfg.macros.find? (·.1 == mn) with
+    | none => .error .unknownInstruction
+    | some (_, mvs) =>
+      match expandMacro cfg.regs (cfgGz cfg) mvs fs with
+      | .error e => .error e
+      | .ok (_, steps) =>
+        match stepSizes cfg.regs (cfgGz cfg) cfg.tbl steps with
+        | some sizes => .ok sizes.sum
+        | none => .error .noVariant
+
+/-- bytes of an ISA statement in the second pass: final label values, final address -/
+def isaBytes (cfg : Cfg) (env : String → Option Int) (addr : Int) (mn : String) (fs : List Form) :
+    Except Err (List Nat) :=
+  match cfg.tbl.find? (·.1 == mn) with
+  | some (_, variants) => (assembleStmt cfg.regs (cfgGz cfg) env addr variants fs).map (·.2)
+  | none =>
+    match cfg.macros.find? (·.1 == mn) with
+    | none => .error .unknownInstruction
+    | some (_, mvs) => (assembleMacro cfg.regs (cfgGz cfg) env cfg.tbl addr mvs fs).map (·.2)
+
+/-- whole-word symbol substitution inside the expressions of an operand form -/
+def substForm (t : SymTab) : Form → Except Err Form
+  | .plain e => do .ok (.plain (← substE t e))
+  | .ind e => do .ok (.ind (← substE t e))
+  | .ind2 e => do .ok (.ind2 (← substE t e))
+  | .curly e => do .ok (.curly (← substE t e))
+  | .indDeco pre e post => do .ok (.indDeco pre (← substE t e) post)
+  | f => .ok f
 
 /-! ## reading (`AssemblyFile.load_line_objects`) -/
 
@@ -201,6 +249,7 @@ def substStmt (t : SymTab) : Stmt → Except Err Stmt
   | .org e z => do .ok (.org (← substE t e) z)
   | .align (some p) => do .ok (.align (some (← substE t p)))
   | .instr o args => do .ok (.instr o (← args.mapM fun (e, w) => do pure ((← substE t e), w)))
+  | .isa mn fs => do .ok (.isa mn (← fs.mapM (substForm t)))
   | s => .ok s
 
 /-- read the statements of one file in order; `files` maps a file id to its statements; `fuel`
@@ -273,7 +322,7 @@ structure Placed where
 deriving Repr, Inhabited
 
 def isByteLine : Stmt → Bool
-  | .data .. | .bytes .. | .fill .. | .zerountil .. | .instr .. | .str .. => true
+  | .data .. | .bytes .. | .fill .. | .zerountil .. | .instr .. | .str .. | .isa .. => true
   | _ => false
 
 /-- `PageAlignLine.set_start_address` -/
@@ -291,6 +340,7 @@ def firstPassStep (cfg : Cfg) (st : Zones × Labels) (ln : Line) : Except Err (P
     | .fill cnt _ => do let n ← valueE env cnt; pure (cur, n)
     | .zerountil a => do let t ← valueE env a; pure (cur, if t ≥ cur then t - cur + 1 else 0)
     | .instr _ args => pure (cur, ((1 + args.foldl (fun s a => s + a.2) 0 : Nat) : Int))
+    | .isa mn fs => do let n ← isaSize cfg mn fs; pure (cur, (n : Int))
     | .org e zn => do
       let v ← valueE env e
       let value := match zn with | none => v | some _ => z.start + v
@@ -341,6 +391,7 @@ def lineBytes (cfg : Cfg) (L : Labels) (p : Placed) : Except Err (List Nat) :=
       let v ← valueE env e
       if Fits v (8 * w) then .ok (wordBytes w cfg.little v) else .error .fieldOverflow
     .ok (opc % 256 :: bs.flatten)
+  | .isa mn fs => isaBytes cfg env p.addr mn fs
   | _ => .ok []
 
 structure Emitted where
